@@ -38,6 +38,7 @@ struct Access {
     std::vector<long long> values;        // put: values to write; get: expected values (selection order)
     std::vector<uint8_t> estate;          // get: per element 0 = compare value, 1 = expect fill, 2 = don't care
     int erange_k = -1;                    // resolved index of the out-of-range element (-1: none)
+    bool tail_hazard = false;             // bput: enough free bytes in the attached buffer, but not above the last pending entry (known finding tail-only-reclaim)
     std::vector<long long> elems;         // linear element indices within the variable (record-major) in selection order
 };
 
